@@ -188,6 +188,27 @@ def instantiated (s : St) (i : IId) (x : Inst) (n : Name) (p : PId) : Except Res
       let ip := s.heap.length
       .ok (setInst { s with heap := s.heap ++ [q] } i { x with iparams := aset x.iparams n ip }, ip)
 
+/-- src: Parameters.add_parameter -/
+def addParamCore (s : St) (c : CId) (n : Name) (d : Int) (hi : Option Int) : St × Res :=
+  -- src: Parameters.add_parameter
+  match s.classes[c]? with
+  | none => (s, .stuck)
+  | some k =>
+    -- `param.Integer(default=d, bounds=(None, hi))` validates its own default
+    if !({ default := d, hi := hi } : Param).accepts d then (s, .valueError) else
+    let p := s.heap.length
+    -- type.__setattr__(cls, name, obj) runs first (remembering what was there) ...
+    let s1 := setDict { s with heap := s.heap ++ [{ default := d, hi := hi }] } c n p
+    -- ... then _initialize_parameter: slot inheritance, slots stored, re-validation
+    let q : Param := { default := d, hi := resolvedHi s1 p k.mro n hi }
+    if q.accepts d then (clearDesc { s1 with heap := s1.heap.set p q } c, .ok)
+    else
+      -- the re-validation raised: the previous class attribute is put back (or the new one
+      -- deleted), the caches of the class and its descendants are cleared (a validator may have
+      -- read the namespace meanwhile) and the exception re-raised; the Parameter object exists
+      -- but is not installed
+      (clearDesc { s with heap := s.heap ++ [q] } c, .runtimeError)
+
 /-- one operation, as written -/
 def step (s : St) : Op → St × Res
   | .read c => ((nsRead s c).1, .ok)
@@ -214,25 +235,7 @@ def step (s : St) : Op → St × Res
           -- again (the class goes on inheriting) and the caches are cleared a second time; the
           -- discarded copy is unreachable
           (clearDesc s c, .valueError)
-  | .addParam c n d hi =>
-    -- src: Parameters.add_parameter
-    match s.classes[c]? with
-    | none => (s, .stuck)
-    | some k =>
-      -- `param.Integer(default=d, bounds=(None, hi))` validates its own default
-      if !({ default := d, hi := hi } : Param).accepts d then (s, .valueError) else
-      let p := s.heap.length
-      -- type.__setattr__(cls, name, obj) runs first (remembering what was there) ...
-      let s1 := setDict { s with heap := s.heap ++ [{ default := d, hi := hi }] } c n p
-      -- ... then _initialize_parameter: slot inheritance, slots stored, re-validation
-      let q : Param := { default := d, hi := resolvedHi s1 p k.mro n hi }
-      if q.accepts d then (clearDesc { s1 with heap := s1.heap.set p q } c, .ok)
-      else
-        -- the re-validation raised: the previous class attribute is put back (or the new one
-        -- deleted), the caches of the class and its descendants are cleared (a validator may have
-        -- read the namespace meanwhile) and the exception re-raised; the Parameter object exists
-        -- but is not installed
-        (clearDesc { s with heap := s.heap ++ [q] } c, .runtimeError)
+  | .addParam c n d hi => addParamCore s c n d hi
   | .newInst c kw =>
     match s.classes[c]? with
     | none => (s, .stuck)
@@ -266,20 +269,10 @@ def step (s : St) : Op → St × Res
     | none => (s, .stuck)
     | some x => ((nsRead s x.cls).1, .ok)
   | .clsSetParam c n d hi =>
-    -- src: ParameterizedMetaclass.__setattr__, `else` branch (3c67719): `type.__setattr__`, then
-    -- `_initialize_parameter` (names the Parameter, merges it with the ancestors', re-validates),
-    -- then the caches of the class and its descendants are cleared — like `add_parameter`, except that
-    -- there is NO rollback: when the re-validation raises, the rejected Parameter stays installed and
-    -- no cache is cleared
-    match s.classes[c]? with
-    | none => (s, .stuck)
-    | some k =>
-      if !({ default := d, hi := hi } : Param).accepts d then (s, .valueError) else
-      let p := s.heap.length
-      let s1 := setDict { s with heap := s.heap ++ [{ default := d, hi := hi }] } c n p
-      let q : Param := { default := d, hi := resolvedHi s1 p k.mro n hi }
-      if q.accepts d then (clearDesc { s1 with heap := s1.heap.set p q } c, .ok)
-      else ({ s1 with heap := s1.heap.set p q }, .runtimeError)
+    -- src: ParameterizedMetaclass.__setattr__, `else` branch (6653662): a Parameter value takes the
+    -- `add_parameter` path — install, name and merge, roll back when the merge is rejected, clear the
+    -- caches of the class and its descendants
+    addParamCore s c n d hi
   | .instParam i n =>
     -- src: Parameters.__getitem__: `p = self_.objects(instance=False)[key]`; `_instantiated_parameter(inst, p)`
     match s.insts[i]? with
